@@ -33,6 +33,18 @@ impl Prop for C13Prop {
             let delay_us = rng.below(3000);
             return Case { req: format!("c13t {} {}", shape, delay_us), in_domain: true, nontrivial: true, tags: vec!["second-thread"] };
         }
+        if rng.chance(1, 150) {
+            // a LONG run: a two-instruction loop executed more than a thousand times, the flag
+            // raised at a boundary around a power of two or anywhere in between
+            let total = 2100usize;
+            let queue: Vec<String> = (0..total).map(|i| if i % 2 == 0 { "C/-".to_string() } else { format!("GL/-/{}", enc_str(":a")) }).collect();
+            let halt_at = match rng.below(8) {
+                0 => 1023, 1 => 1024, 2 => 1025, 3 => 2047, 4 => 2048, 5 => 2049,
+                _ => 900 + rng.below(1200),
+            };
+            let names: Vec<String> = ["c0", "c1", "c2", "c3"].iter().map(|s| s.to_string()).collect();
+            return Case { req: mk_req(":a x = c0 v\nc1", &names, &queue, Some(halt_at), &[], total * 3 + 10), in_domain: true, nontrivial: true, tags: vec!["long-run"] };
+        }
         let (text, n) = gen_program(rng, 15);
         let mut names: Vec<String> = ["c0", "c1", "c2", "c3"].iter().map(|s| s.to_string()).collect();
         let on_error = rng.chance(1, 2);
@@ -95,7 +107,7 @@ impl Prop for C13Prop {
                 // no verdict from the relation, model and code are still compared
                 return None;
             }
-            let emit = out.split("_EMIT_").nth(1).unwrap_or("");
+            let emit = out.split("_EMIT_").nth(1).unwrap_or("").split("_HANDLES_").next().unwrap_or("");
             let entries: Vec<&str> = if emit.is_empty() { vec![] } else { emit.split(';').collect() };
             let h = enc_list(&["__halt__".to_string()]);
             return Some(match entries.iter().position(|e| *e == h) {
